@@ -34,8 +34,8 @@ class RequestChannelRequester(RequestChannelCommon, Requester):
 
     def subscribe(self, subscriber: Subscriber):
         self.setup()
-        super().subscribe(subscriber)
         self._send_channel_request(self._payload)
+        super().subscribe(subscriber)
 
         if self._publisher is None:
             self.mark_completed_and_finish(sent=True)
